@@ -1,11 +1,10 @@
 SPECIFICATION Spec
 CONSTANTS
-  Sizes = {0, 1, 8192, 8193, 16385, 70000}
-  MaxCalls = 4
+  Sizes = {0, 1, 8192}
+  MaxCalls = 2
   IgnoreEmptyWrites = TRUE
-  CloseOnDrop = FALSE
+  CloseOnDrop = TRUE
 INVARIANT ZeroChunkOnlyTerminates
 INVARIANT BodyDecodesBack
 INVARIANT TruncatedNeverTerminated
-INVARIANT Emit
 CHECK_DEADLOCK FALSE
